@@ -1,6 +1,7 @@
 package vsync
 
 import (
+	"cmp"
 	"runtime"
 	"sort"
 	"sync"
@@ -12,11 +13,12 @@ import (
 // testing/synctest bubble) pick which enabled one proceeds. It knows nothing
 // about exploration strategy.
 type S struct {
-	mu     sync.Mutex
-	parked []*G
-	byGoid map[int64]*G
-	nextID int
-	firsts map[string]int
+	mu         sync.Mutex
+	parked     []*G
+	byGoid     map[int64]*G
+	nextID     int
+	firsts     map[string]int
+	freeFirsts map[string]int
 	// Arrive is signalled (non-blocking) whenever a goroutine parks or a
 	// client finishes; the explorer selects on it while letting fake time pass.
 	Arrive chan struct{}
@@ -35,6 +37,8 @@ type G struct {
 	Label   string // label of the point it is parked at
 	wake    chan struct{}
 	wait    *lockWait
+	goid    int64
+	first   string
 	exiting bool
 	doomed  bool // belongs to a crashed generation: exits at its next point
 	Done    atomic.Bool
@@ -47,7 +51,7 @@ var cur atomic.Pointer[S]
 func Install(s *S) { cur.Store(s) }
 
 func New() *S {
-	return &S{byGoid: map[int64]*G{}, Arrive: make(chan struct{}, 1), nextID: 100, firsts: map[string]int{}}
+	return &S{byGoid: map[int64]*G{}, Arrive: make(chan struct{}, 1), nextID: 100, firsts: map[string]int{}, freeFirsts: map[string]int{}}
 }
 
 // active returns the installed scheduler (points are registered even in the
@@ -118,13 +122,20 @@ func (s *S) me(label string) *G {
 	g := s.byGoid[id]
 	if g == nil {
 		// Identity of an internal goroutine = label of its first point plus how
-		// many goroutines started with that label before: independent of the
-		// order in which the runtime happened to run freshly spawned goroutines.
-		k := s.firsts[label]
-		s.firsts[label] = k + 1
-		g = &G{ID: s.nextID, Key: label + "#" + itoa(k)}
-		g.Name = g.Key
+		// many goroutines started with that label before it. During a controlled
+		// execution the number is assigned at the next decision (Enabled), in
+		// goroutine-creation order (goids grow with creation on the single P the
+		// explorer runs on), so it does not depend on which of several freshly
+		// spawned goroutines happened to reach its first point first (file
+		// system calls let the runtime run them in parallel).
+		g = &G{ID: s.nextID, goid: id, first: label}
 		s.nextID++
+		if !s.controlled.Load() {
+			k := s.freeFirsts[label]
+			s.freeFirsts[label] = k + 1
+			g.Key = "free:" + label + "#" + itoa(k)
+			g.Name = g.Key
+		}
 		s.byGoid[id] = g
 	}
 	return g
@@ -203,6 +214,7 @@ func (s *S) Notify() {
 func (s *S) Enabled() (en []*G, parked int) {
 	s.mu.Lock()
 	defer s.mu.Unlock()
+	s.nameLocked()
 	for _, g := range s.parked {
 		if g.wait.enabled() {
 			en = append(en, g)
@@ -219,6 +231,26 @@ func (s *S) Enabled() (en []*G, parked int) {
 		return a.Key < b.Key
 	})
 	return en, len(s.parked)
+}
+
+// nameLocked gives every not yet named internal goroutine its key, in creation order.
+func (s *S) nameLocked() {
+	var fresh []*G
+	for _, g := range s.parked {
+		if !g.Client && g.Key == "" {
+			fresh = append(fresh, g)
+		}
+	}
+	if len(fresh) == 0 {
+		return
+	}
+	sort.Slice(fresh, func(i, j int) bool { return fresh[i].goid < fresh[j].goid })
+	for _, g := range fresh {
+		k := s.firsts[g.first]
+		s.firsts[g.first] = k + 1
+		g.Key = g.first + "#" + itoa(k)
+		g.Name = g.Key
+	}
 }
 
 // Release lets g proceed past its point.
@@ -239,6 +271,7 @@ func (s *S) ParkedLabels() []string {
 	s.mu.Lock()
 	defer s.mu.Unlock()
 	var out []string
+	s.nameLocked()
 	for _, g := range s.parked {
 		n := g.Name
 		if n == "" {
@@ -248,4 +281,41 @@ func (s *S) ParkedLabels() []string {
 	}
 	sort.Strings(out)
 	return out
+}
+
+// Chooser, when set by the explorer for the duration of a controlled
+// execution, decides data choices that perkeep itself leaves to chance.
+var Chooser func(label string, n int) int
+
+// PickKey stands in for `for k = range m { break }` (Go's randomised map
+// iteration) at seams installed by ./check's "subst": the keys are ordered and
+// the explorer picks one (default: the smallest), so the pick is replayable
+// and every alternative is explored as a data choice.
+func PickKey[K comparable](m map[K]bool, less func(a, b K) bool, label string) K {
+	keys := make([]K, 0, len(m))
+	for k := range m {
+		keys = append(keys, k)
+	}
+	sort.Slice(keys, func(i, j int) bool { return less(keys[i], keys[j]) })
+	i := 0
+	if s := active(); s != nil && s.controlled.Load() && !s.dead.Load() && Chooser != nil && len(keys) > 1 {
+		i = Chooser(label, len(keys))
+	}
+	return keys[i]
+}
+
+// SortedKeys stands in for ranging over a map where only the order is left to
+// chance and cannot matter to the result (seam installed by ./check's "subst").
+func SortedKeys[K cmp.Ordered, V any](m map[K]V) []K {
+	keys := make([]K, 0, len(m))
+	for k := range m {
+		keys = append(keys, k)
+	}
+	sort.Slice(keys, func(i, j int) bool { return keys[i] < keys[j] })
+	return keys
+}
+
+// SortSlice orders a slice that was filled by ranging over a map.
+func SortSlice[T any](s []T, less func(a, b T) bool) {
+	sort.Slice(s, func(i, j int) bool { return less(s[i], s[j]) })
 }
